@@ -13,7 +13,7 @@ RULE = ("(a) heap.h in process with the player's comparator: every sequence of <
         "player's pop/re-insert pattern; oracle: multiset model (pop returns a minimal key, NULL iff empty, size) "
         "and after every operation a tree walk (parent links, heap order, complete shape, node count).  "
         "(b) ovnidump/ovnitop on 0-8 streams of 0-30 arbitrary events with heavy cross-stream clock ties, empty "
-        "streams, nested stream directories, two creation orders: output is a valid merge (non-decreasing clock, "
+        "streams, time scales from 1 ns to 70 s between events (clock differences beyond 32 bits), nested stream directories, two creation orders: output is a valid merge (non-decreasing clock, "
         "every event once, per-stream order kept), identical for both creation orders; ovnitop counts = multiset. "
         "(c) ovniemu with 1-3 looms and clock-offsets.txt (negative, zero, large), tracer-dye marks: lines of "
         "thread.prv in file order are a valid merge in corrected time, each time = corrected - corrected(first), "
@@ -115,9 +115,11 @@ def dump_cases(draw):
     ns = draw(st.integers(0, 8))
     streams = []
     base = draw(st.sampled_from([0, 1000, 2 ** 40]))
+    # time scale: with seconds between events the clock differences exceed 32 bits
+    scale = draw(st.sampled_from([1, 1, 10 ** 9, 2 ** 31 + 1, 7 * 10 ** 10]))
     for i in range(ns):
         n = draw(st.integers(0, 30))
-        clocks = sorted(draw(st.lists(st.integers(0, 12), min_size=n, max_size=n)))
+        clocks = sorted(c * scale for c in draw(st.lists(st.integers(0, 12), min_size=n, max_size=n)))
         evs = []
         for c in clocks:
             mcv = draw(st.sampled_from(MCVS))
@@ -223,6 +225,7 @@ def emu_cases(draw):
     tid = 10
     marks = {"0": {"title": "dye", "chan_type": "single"}}
     base = 10 ** 6
+    scale = draw(st.sampled_from([1, 1, 1, 2 ** 31 + 3, 5 * 10 ** 9]))   # seconds apart: differences beyond 32 bits
     for li in range(nlooms):
         host = hosts[0] if (share and li == 1) else hosts[li]
         lname = "%s.%d" % (host, li)
@@ -234,12 +237,12 @@ def emu_cases(draw):
             k = draw(st.integers(0, 8))
             start = draw(st.integers(0, 20))
             gaps = draw(st.lists(st.integers(0, 6), min_size=k + 1, max_size=k + 1))
-            clk = base + start - offsets.get(host, 0)   # so that corrected clocks collide across hosts
+            clk = base + start * scale - offsets.get(host, 0)   # so that corrected clocks collide across hosts
             evs = [T.OHx(clk, -1)]
             for i in range(k):
-                clk += gaps[i]
+                clk += gaps[i] * scale
                 evs.append(T.mark("=", clk, i + 1, 0))
-            clk += gaps[k]
+            clk += gaps[k] * scale
             evs.append(T.plain("OHe", clk))
             s = {"loom": lname, "pid": 100 + li, "tid": tid, "app": 1, "events": evs,
                  "extra": {"ovni.mark": marks}}
